@@ -78,6 +78,17 @@ type CallState struct {
 	done     chan struct{}
 }
 
+// Finished reports whether the call has returned (synchronised through the
+// done channel, so that Err and EndNs may be read afterwards under the race detector).
+func (c *CallState) Finished() bool {
+	select {
+	case <-c.done:
+		return true
+	default:
+		return false
+	}
+}
+
 func (c *CallState) ErrString() string {
 	if c.Err == nil {
 		return "<nil>"
@@ -133,6 +144,7 @@ type Sim struct {
 	Respond func(p snref.Pkt) []snref.Pkt
 
 	activity chan struct{} // signalled whenever the client writes a datagram
+	ccfg     *client.ClientConfig
 }
 
 func (s *Sim) Now() int64 { return int64(time.Since(s.start)) }
@@ -170,6 +182,7 @@ func Start(cfg Config, logger util.Logger) (*Sim, error) {
 	if logger == nil {
 		logger = util.NoOpLogger{}
 	}
+	s.ccfg = ccfg
 	s.Client = client.NewClient(logger, ccfg)
 	s.Client.VerifSetDialFunc(func() (net.Conn, error) { return s.Link.Conn(), nil })
 	if err := s.Client.Dial("memnet:0"); err != nil {
@@ -316,7 +329,7 @@ func (s *Sim) WaitCall(cs *CallState, max time.Duration) bool {
 	end := time.Now().Add(max)
 	for {
 		s.Settle()
-		if cs.Returned {
+		if cs.Finished() {
 			return true
 		}
 		left := time.Until(end)
@@ -449,3 +462,6 @@ func (g *Gateway) Answer(p snref.Pkt) []snref.Pkt {
 	}
 	return nil
 }
+
+// SetRetryDelay overrides the client's RetryDelay (Config carries milliseconds only).
+func (s *Sim) SetRetryDelay(d time.Duration) { s.ccfg.RetryDelay = d }
